@@ -1,7 +1,8 @@
 (* Property C08 — demuxer output depends on the stream's bytes, not on how they are read or framed
-   (theorems only; proofs in Proofs/ReaderProofs.v and Proofs/DemuxProofs.v). *)
+   (theorems only; proofs in Proofs/ReaderProofs.v, Proofs/DemuxProofs.v and Proofs/WideProofs.v). *)
 From Coq Require Import ZArith List Bool.
-Require Import Base.Iter Gen.Consts Gen.Types Model.Packet Model.Reader Model.Demux Proofs.ReaderProofs Proofs.DemuxProofs.
+Require Import Base.Bits Base.Iter Gen.Consts Gen.Types Model.Packet Model.Reader Model.Demux Model.DemuxFull Model.Muxer
+  Proofs.ReaderProofs Proofs.DemuxProofs Proofs.WideProofs.
 Import ListNotations.
 Open Scope Z_scope.
 
@@ -63,8 +64,121 @@ Example C08_detectable :
   fresh r /\ nth 0 (window r) 0 = syncByte /\ find_sync (window r) 0 = Some 188.
 Proof. vm_compute. repeat split; reflexivity. Qed.
 
-(* NOT proved here (full statement kept): a stream in 188+k-byte packets yields the packets of its 188-byte form.
-   It holds of the model (parsePacket seeks to len-188+1 after the sync byte) and is exercised on every run by the
-   `wide-explicit` / `wide-auto` correspondence cases and the oracle. *)
-Definition C08_wide_full : Prop := forall skip extra rest, Z.of_nat (length rest) = 187 ->
+(* ---- (e) wide packets: a stream carried in 188+k-byte packets yields the packets of its 188-byte form ---- *)
+
+(* parsePacket on a buffer of 1 + k + 187 bytes returns what it returns on the first byte followed by the last 187:
+   for EVERY k (192, 204, anything), every skipper and ALL byte values (no well-formedness assumed: errors and, were
+   there any, panics are the same too).  After the sync byte the parser seeks to len-188+1 and only ever uses offsets
+   relative to that point; the proof is a shift-invariance theorem for the iterator monad (Proofs/WideProofs.v: sim). *)
+Theorem C08_wide : forall skip extra rest, Z.of_nat (length rest) = 187 ->
   run_iter (parse_packet skip) (syncByte :: extra ++ rest) = run_iter (parse_packet skip) (syncByte :: rest).
+Proof. exact parse_packet_wide_sync. Qed.
+Print Assumptions C08_wide.
+
+(* the same for a buffer that does not start with the sync byte (both report ErrPacketMustStartWithASyncByte) *)
+Theorem C08_wide_any_first_byte : forall skip x extra rest, Z.of_nat (length rest) = 187 ->
+  run_iter (parse_packet skip) (x :: extra ++ rest) = run_iter (parse_packet skip) (x :: rest).
+Proof. exact parse_packet_wide. Qed.
+Print Assumptions C08_wide_any_first_byte.
+
+(* the PacketSkipper is shown the same header and adaptation field *)
+Theorem C08_wide_skipper_view : forall x extra rest, Z.of_nat (length rest) = 187 ->
+  res_map fst (run_iter parse_packet_head (x :: extra ++ rest)) = res_map fst (run_iter parse_packet_head (x :: rest)).
+Proof. exact parse_packet_head_wide. Qed.
+Print Assumptions C08_wide_skipper_view.
+
+(* [narrow b] = first byte of b followed by its last 187 bytes: the 188-byte form of a wide packet *)
+Theorem C08_narrow_of_wide : forall x extra rest, length rest = 187%nat -> narrow (x :: extra ++ rest) = x :: rest.
+Proof. exact narrow_wide. Qed.
+Print Assumptions C08_narrow_of_wide.
+
+(* streams: on a list of buffers of at least 188 bytes each, successive NextPacket calls (with any skipper) return
+   exactly what they return on the list of the 188-byte forms, and leave the corresponding remainder *)
+Theorem C08_wide_stream_step : forall skip bufs, Forall wide_enough bufs ->
+  fst (first_unskipped skip (map narrow bufs)) = fst (first_unskipped skip bufs) /\
+  snd (first_unskipped skip (map narrow bufs)) = map narrow (snd (first_unskipped skip bufs)).
+Proof. exact first_unskipped_narrow. Qed.
+Print Assumptions C08_wide_stream_step.
+
+(* ... every result of every call up to the end of the stream *)
+Theorem C08_wide_stream_all : forall skip fuel bufs, Forall wide_enough bufs ->
+  all_packets fuel skip (map narrow bufs) = all_packets fuel skip bufs.
+Proof. exact all_packets_narrow. Qed.
+Print Assumptions C08_wide_stream_all.
+
+(* ... and packetBuffer.next itself: a reader over size-byte packets (size = 188+k given explicitly) and a reader over
+   their 188-byte forms deliver the same packet or error at every position, whatever trails the last whole packet *)
+Theorem C08_wide_packet_buffer : forall skip size bufs fuel fuel' r r' tail tail', C_MpegTsPacketSize <= size ->
+  reader_ok r -> r_rest r = concat bufs ++ tail -> Forall (buf_ok size) bufs -> Z.of_nat (length tail) < size ->
+  reader_ok r' -> r_rest r' = concat (map narrow bufs) ++ tail' -> Z.of_nat (length tail') < C_MpegTsPacketSize ->
+  (length bufs < fuel)%nat -> (length bufs < fuel')%nat ->
+  fst (fst (pb_next fuel skip size r)) = fst (fst (pb_next fuel' skip C_MpegTsPacketSize r')) /\
+  (fst (first_unskipped skip bufs) <> Err E_nomore ->
+   r_rest (snd (fst (pb_next fuel skip size r))) = concat (snd (first_unskipped skip bufs)) ++ tail /\
+   r_rest (snd (fst (pb_next fuel' skip C_MpegTsPacketSize r'))) = concat (map narrow (snd (first_unskipped skip bufs))) ++ tail').
+Proof. exact pb_next_wide. Qed.
+Print Assumptions C08_wide_packet_buffer.
+
+(* the hypotheses are satisfiable and the conclusion is not vacuous: a 192-byte packet (4 bytes of timecode-like
+   filler between the sync byte and the header) with an adaptation field (PCR) and a payload parses to a packet, the
+   one its 188-byte form parses to *)
+Example C08_wide_192 :
+  let rest := [65; 0; 48; 7; 16; 0; 0; 0; 1; 126; 0] ++ repeat 170 176 in
+  let extra := [1; 2; 71; 4] in
+  Z.of_nat (length rest) = 187 /\
+  is_ok (run_iter (parse_packet no_skip) (syncByte :: extra ++ rest)) = true /\
+  run_iter (parse_packet no_skip) (syncByte :: extra ++ rest) = run_iter (parse_packet no_skip) (syncByte :: rest) /\
+  narrow (syncByte :: extra ++ rest) = syncByte :: rest.
+Proof. vm_compute. repeat split; reflexivity. Qed.
+
+(* ---- (e) at the level of the property text: the whole demuxer, packets and data ---- *)
+
+(* a stream of size-byte packets (size = 188+k given explicitly through the packet-size option; any k), followed by any
+   short tail, read through any kind of reader: EVERY sequence of NextPacket / NextData calls -- any unit parsers,
+   packets parser, skipper -- returns exactly what it returns on the stream of the 188-byte forms read with size 188.
+   Proof: simulation between the two runs (same data buffer, pool and program map; the readers hold n buffers and
+   their narrow forms), with C08_wide for each packet read *)
+Theorem C08_wide_demux : forall P prs skip size, C_MpegTsPacketSize <= size -> forall cs bufs tail tail' k k',
+  Forall (sized size) bufs -> Z.of_nat (length tail) < size -> Z.of_nat (length tail') < C_MpegTsPacketSize ->
+  calls P prs skip cs (init_dstate (new_reader (concat bufs ++ tail) None k) size) =
+  calls P prs skip cs (init_dstate (new_reader (concat (map narrow bufs) ++ tail') None k') C_MpegTsPacketSize).
+Proof. exact calls_wide. Qed.
+Print Assumptions C08_wide_demux.
+
+(* satisfiable and not vacuous: a stream written by the muxer model (PAT, PMT, PES, tables again, PES), each packet
+   widened to 204 bytes by 16 bytes after the sync byte (one of them a 0x47), read with size 204 and a truncated
+   trailing packet: NextPacket (the first PAT, raw), then NextData to the end -- the packet, then 4 tables and
+   2 PES come out (the first PMT is dropped: its PAT was consumed by NextPacket), then ErrNoMorePackets -- the same as
+   from the 188-byte stream *)
+Definition ex_wide_es : PMTElementaryStream :=
+  {| PMTElementaryStream_ElementaryPID := 256; PMTElementaryStream_ElementaryStreamDescriptors := [];
+     PMTElementaryStream_StreamType := 27 |}.
+Definition ex_wide_md : MuxerData :=
+  {| MuxerData_PID := 256; MuxerData_AdaptationField := None;
+     MuxerData_PES := Some {| PESData_Data := [1; 2; 3; 4; 5];
+                              PESData_Header := Some {| PESHeader_OptionalHeader := None; PESHeader_PacketLength := 0;
+                                                        PESHeader_StreamID := 191 |} |} |}.
+Definition ex_wide_packets : list (list Z) :=
+  map (@concat Z) (concat (map mo_groups (snd (mux_run (new_muxer 40)
+    [MAdd ex_wide_es; MSetPCR 256; MWriteTables; MWriteData ex_wide_md; MWriteTables; MWriteData ex_wide_md])))).
+Definition widen (extra b : list Z) : list Z := match b with [] => [] | x :: t => x :: extra ++ t end.
+
+Example C08_wide_demux_example :
+  let extra := [0; 1; 71; 3; 4; 5; 6; 7; 8; 9; 10; 11; 12; 13; 14; 15] in
+  let bufs := map (widen extra) ex_wide_packets in
+  let tail := firstn 100 (nth 0 bufs []) in
+  let cs := CallPacket :: repeat CallData 10 in
+  length bufs = 8%nat /\ Forall (sized 204) bufs /\ map narrow bufs = ex_wide_packets /\
+  Z.of_nat (length tail) < 204 /\
+  map (@is_ok _) (calls full_parsers None no_skip cs (init_dstate (new_reader (concat bufs ++ tail) None Plain) 204)) =
+    [true; true; true; true; true; true; true; false; false; false; false] /\
+  calls full_parsers None no_skip cs (init_dstate (new_reader (concat bufs ++ tail) None Plain) 204) =
+  calls full_parsers None no_skip cs (init_dstate (new_reader (concat ex_wide_packets ++ [71; 0]) None Seekable) 188).
+Proof.
+  intros extra bufs tail cs.
+  assert (Hall : Forall (sized 204) bufs) by (vm_compute; repeat constructor).
+  assert (Hn : map narrow bufs = ex_wide_packets) by (vm_compute; reflexivity).
+  split; [vm_compute; reflexivity|]. split; [exact Hall|]. split; [exact Hn|].
+  split; [vm_compute; reflexivity|]. split; [vm_compute; reflexivity|].
+  rewrite <- Hn. apply (calls_wide full_parsers None no_skip 204); [discriminate|exact Hall|vm_compute; reflexivity|vm_compute; reflexivity].
+Qed.
